@@ -288,6 +288,9 @@ type c05PeerCase struct {
 	Meta     int   `json:"meta"`  // 0 none, 1 canonical keys, 2 lower-case keys
 	Vary     int   `json:"vary"`  // bit set of legal variations (see c05Vary)
 	TCase    int   `json:"tcase"` // gRPC-Web trailer name casing
+	// ZeroMask: bit i set = message i is the zero message (empty payload under
+	// the proto codec), sent uncompressed whatever Compress says
+	ZeroMask int `json:"zero_mask,omitempty"`
 }
 
 const (
@@ -305,7 +308,11 @@ func (k c05PeerCase) key() string {
 	if k.JSON {
 		codec = "json"
 	}
-	return fmt.Sprintf("peer/%s/%s/%s/n%d/c%d/err%d.%d.%d/meta%d/vary%07b/tcase%d", k.Proto, k.Kind, codec, k.NMsgs, k.Compress, k.ErrCode, k.ErrMsg, k.Details, k.Meta, k.Vary, k.TCase)
+	zero := ""
+	if k.ZeroMask != 0 {
+		zero = fmt.Sprintf("/zero%03b", k.ZeroMask)
+	}
+	return fmt.Sprintf("peer/%s/%s/%s/n%d/c%d/err%d.%d.%d/meta%d/vary%07b/tcase%d%s", k.Proto, k.Kind, codec, k.NMsgs, k.Compress, k.ErrCode, k.ErrMsg, k.Details, k.Meta, k.Vary, k.TCase, zero)
 }
 
 func c05PeerCheck(c *ev.Collector, k c05PeerCase) {
@@ -327,9 +334,13 @@ func c05PeerCheck(c *ev.Collector, k c05PeerCase) {
 	var payloads [][]byte
 	for i := 0; i < k.NMsgs; i++ {
 		p := Payload(40+i*3, byte(0x41+i))
+		zero := k.ZeroMask&(1<<i) != 0
+		if zero {
+			p = []byte{}
+		}
 		payloads = append(payloads, p)
 		spec.Msgs = append(spec.Msgs, codecMarshal(k.JSON, &BV{Value: p}))
-		spec.Compress = append(spec.Compress, k.Compress == 1 || (k.Compress == 2 && i%2 == 0))
+		spec.Compress = append(spec.Compress, !zero && (k.Compress == 1 || (k.Compress == 2 && i%2 == 0)))
 	}
 	if k.Compress != 0 {
 		spec.Alg = "gzip"
@@ -427,6 +438,18 @@ func c05PeerCheck(c *ev.Collector, k c05PeerCase) {
 
 func c05PeerCases(thorough bool) []c05PeerCase {
 	var out []c05PeerCase
+	// zero messages at any position of a short stream, between non-zero ones
+	for _, p := range AllProtos {
+		for _, js := range []bool{false, true} {
+			for n := 1; n <= 3; n++ {
+				for mask := 1; mask < 1<<n; mask++ {
+					for comp := 0; comp < 2; comp++ {
+						out = append(out, c05PeerCase{Proto: p, Kind: KServer, JSON: js, NMsgs: n, Compress: comp, ZeroMask: mask, Meta: 1, TCase: 1})
+					}
+				}
+			}
+		}
+	}
 	for _, p := range AllProtos {
 		for _, kind := range []Kind{KUnary, KServer} {
 			for code := 1; code <= 16; code++ {
@@ -749,6 +772,7 @@ func TestC05(t *testing.T) {
 		return
 	}
 	thorough := ev.Thorough()
+	c05SendFails(t, c)
 	idx := 0
 	for _, k := range c05OutCases(thorough) {
 		idx++
